@@ -141,7 +141,7 @@ pub fn run(tier: &str) -> i32 {
     }
     // jobs: (rank pair, states, background, lo, hi)
     let mut jobs: Vec<(RP, u64, u8, u64, u64)> = vec![];
-    for rp in RP::all() {
+    for rp in vlib::report::thin(RP::all(), 3) {
         let k = rp.combos().len() as u32;
         for bg in 0..3u8 {
             let states: u64 = match rp {
@@ -213,7 +213,7 @@ pub fn run(tier: &str) -> i32 {
     // weights is exact equality
     let near: [(u32, u32); 3] = [(0.5f32.to_bits(), 0.5f32.to_bits() + 1), (1.0f32.to_bits(), 1.0f32.to_bits() - 1), (0, 1)];
     let mut near_jobs: Vec<(RP, usize)> = vec![];
-    for rp in RP::all() {
+    for rp in vlib::report::thin(RP::all(), 3) {
         for w in 0..near.len() {
             near_jobs.push((rp, w));
         }
